@@ -82,6 +82,13 @@ def step (s : S) (ws : List String) : S × String :=
     match getV s v, parseK d l with
     | some x, some (d, l) => ({ s with iters := s.iters.push (query kind x.t d l) }, s!"i{s.iters.size}")
     | _, _ => (s, "bad-op")
+  | ["iterall", i] =>
+    match i.toNat? with
+    | some i =>
+      match s.iters[i]? with
+      | some es => (s, showE es)
+      | none => (s, "bad-op")
+    | none => (s, "bad-op")
   | ["next", i, n] =>
     match i.toNat?, n.toNat? with
     | some i, some n =>
